@@ -35,6 +35,22 @@ pub fn run(out: &mut Out, seed: u64, tier: &str) {
         let b = bent[k % bent.len()].clone();
         queue.push((distort(&b, 0.02, &mut rng), distort(&linear_chain(tail, 0.95), 0.02, &mut rng)));
     }
+    // a three-coordinate sulfur or oxygen centre (a sulfoxide with the carbons listed first, sulfite, planar H3O+, trimethyloxonium:
+    // centres with an improper but without tabulated inversion constants) next to a fragment with an inversion centre that has them
+    let so_centres: Vec<Mol> = vec![
+        named("dmso-carbons-first", &[("S", 0.0, 0.0, 0.0), ("C", 1.35, 1.2, 0.35), ("C", -1.35, 1.2, 0.35), ("O", 0.0, -0.75, 1.3),
+            ("H", 1.4, 2.1, -0.3), ("H", 2.3, 0.7, 0.3), ("H", 1.2, 1.5, 1.4), ("H", -1.4, 2.1, -0.3), ("H", -2.3, 0.7, 0.3), ("H", -1.2, 1.5, 1.4)]),
+        named("dmso-oxygen-first", &[("S", 0.0, 0.0, 0.0), ("O", 0.0, -0.75, 1.3), ("C", 1.35, 1.2, 0.35), ("C", -1.35, 1.2, 0.35),
+            ("H", 1.4, 2.1, -0.3), ("H", 2.3, 0.7, 0.3), ("H", 1.2, 1.5, 1.4), ("H", -1.4, 2.1, -0.3), ("H", -2.3, 0.7, 0.3), ("H", -1.2, 1.5, 1.4)]),
+        centre(16, 8, "pyramidal", 1.0), centre(16, 9, "trigonal", 1.0), centre(8, 1, "trigonal", 1.0), centre(8, 6, "pyramidal", 1.0), centre(34, 8, "pyramidal", 1.0),
+    ];
+    let inv_centres: Vec<Mol> = ["phosphine", "arsine", "ethene", "formaldehyde", "benzene"].iter().filter_map(|n| find(n)).collect();
+    for (k, a) in so_centres.iter().enumerate() {
+        for (j, b) in inv_centres.iter().enumerate() {
+            if tier != "thorough" && (k + j) % 2 == 1 { continue; }
+            queue.push((distort(a, 0.03, &mut rng), distort(b, 0.05, &mut rng)));
+        }
+    }
     for pair in 0..(n_pairs + queue.len()) {
         // every fifth pair is systematic: a library molecule (lone pairs, pi systems) next to a four-coordinate metal centre —
         // the typing of such a centre (formal charge, d8-ness, square-planar vs tetrahedral) must not depend on its neighbour
